@@ -3,6 +3,8 @@
 -/
 import Model.Poly
 import Spec.Poly
+deriving instance DecidableEq for Except
+
 namespace Proofs.PolyL
 open Model Model.Poly Model.Py
 
